@@ -17,7 +17,7 @@
 from __future__ import annotations
 
 import collections
-from collections.abc import Sequence
+from collections.abc import Iterator, Sequence
 from typing import TYPE_CHECKING, TypeVar
 
 import duet
@@ -427,7 +427,7 @@ class Sampler(metaclass=value.ABCMetaImplementAnyOneOf):
         """
         qid_shapes: dict[str, tuple[int, ...]] = {}
         num_instances: dict[str, int] = collections.Counter()
-        for op in circuit.all_operations():
+        for op in _operations_that_run(circuit):
             key = protocols.measurement_key_name(op, default=None)
             if key is not None:
                 qid_shape = protocols.qid_shape(op)
@@ -439,3 +439,14 @@ class Sampler(metaclass=value.ABCMetaImplementAnyOneOf):
                     )
                 num_instances[key] += 1
         return {k: (num_instances[k], qid_shape) for k, qid_shape in qid_shapes.items()}
+
+
+def _operations_that_run(circuit: cirq.AbstractCircuit) -> Iterator[cirq.Operation]:
+    """The operations of `circuit`, sub-circuits replaced by the operations they stand for."""
+    from cirq.circuits import CircuitOperation
+
+    for op in circuit.all_operations():
+        if isinstance(op.untagged, CircuitOperation):
+            yield from _operations_that_run(op.untagged.mapped_circuit())
+        else:
+            yield op
